@@ -448,15 +448,15 @@ Proof.
     replace (32000 - (32000 - 0 - 2 * Z.of_nat n)) with (2 * Z.of_nat n) by lia.
     replace (2 <=? 2 * Z.of_nat n) with true by (symmetry; apply Z.leb_le; lia).
     replace (2 * Z.of_nat n <=? 126) with true by (symmetry; apply Z.leb_le; lia).
-    rewrite Z.even_mul. simpl.
+    rewrite Z.even_mul. change (Z.even 2) with true. cbn [orb andb].
     replace (2 * Z.of_nat n / 2) with (Z.of_nat n) by (rewrite Z.mul_comm, Z.div_mul; lia).
-    Show. rewrite Nat2Z.id. reflexivity.
+    rewrite Nat2Z.id. reflexivity.
   - replace (- (32000 - 0 - 2 * Z.of_nat n - 1) =? 0) with false by (symmetry; apply Z.eqb_neq; lia).
     replace (0 <? - (32000 - 0 - 2 * Z.of_nat n - 1)) with false by (symmetry; apply Z.ltb_ge; lia).
     replace (32000 - 1 + - (32000 - 0 - 2 * Z.of_nat n - 1)) with (2 * Z.of_nat n) by lia.
     replace (0 <=? 2 * Z.of_nat n) with true by (symmetry; apply Z.leb_le; lia).
     replace (2 * Z.of_nat n <=? 124) with true by (symmetry; apply Z.leb_le; lia).
-    rewrite Z.even_mul. simpl.
+    rewrite Z.even_mul. change (Z.even 2) with true. cbn [orb andb].
     replace (2 * Z.of_nat n / 2) with (Z.of_nat n) by (rewrite Z.mul_comm, Z.div_mul; lia).
     rewrite Nat2Z.id. reflexivity.
   - reflexivity.
@@ -469,12 +469,12 @@ Proof.
   - intros H; inversion H; subst. apply Z.eqb_eq in E0. lia.
   - destruct (0 <? s) eqn:E1.
     + destruct ((2 <=? 32000 - s) && (32000 - s <=? 126) && Z.even (32000 - s)) eqn:E2; [|discriminate].
-      intros H; inversion H; subst; clear H.
+      intros H. injection H as H. subst l.
       apply andb_true_iff in E2. destruct E2 as [E2 E3]. apply andb_true_iff in E2. destruct E2 as [E2 E4].
       apply Z.leb_le in E2. apply Z.even_spec in E3. destruct E3 as [k Ek].
-      rewrite Ek. rewrite Z.mul_comm, Z.div_mul by lia. rewrite Z2Nat.id by lia. lia.
+      Show. rewrite Ek.
     + destruct ((0 <=? 32000 - 1 + s) && (32000 - 1 + s <=? 124) && Z.even (32000 - 1 + s)) eqn:E2; [|discriminate].
-      intros H; inversion H; subst; clear H.
+      intros H. injection H as H. subst l.
       apply andb_true_iff in E2. destruct E2 as [E2 E3]. apply andb_true_iff in E2. destruct E2 as [E2 E4].
       apply Z.leb_le in E2. apply Z.even_spec in E3. destruct E3 as [k Ek].
       rewrite Ek. rewrite Z.mul_comm, Z.div_mul by lia. rewrite Z2Nat.id by lia. lia.
